@@ -15,11 +15,15 @@ class WSGIAdapter(BaseAdapter):
         self.app = app
         self.seen = []
         self.chunk = chunk
+        self.expect = None        # (header name, value) every request of the owning session must carry
+        self.anonymous = []       # urls of requests that arrived without it
 
     def send(self, request, stream=False, timeout=None, verify=True, cert=None, proxies=None):
         from urllib3.response import HTTPResponse
         u = urlsplit(request.url)
         self.seen.append((request.method, request.url))
+        if self.expect is not None and request.headers.get(self.expect[0]) != self.expect[1]:
+            self.anonymous.append(request.url)
         environ = {
             "REQUEST_METHOD": request.method, "SCRIPT_NAME": "", "PATH_INFO": requests.utils.unquote(u.path),
             "QUERY_STRING": u.query or "", "SERVER_NAME": u.hostname or "localhost", "SERVER_PORT": str(u.port or 80),
@@ -53,11 +57,14 @@ class WSGIAdapter(BaseAdapter):
 
 
 BASE = "http://verif.local"
+TOKEN = ("X-Verif-Token", "s3ss10n")
 
 
 def plain_session(app):
     s = requests.Session()
+    s.headers[TOKEN[0]] = TOKEN[1]      # what makes the session THIS session on the wire
     a = WSGIAdapter(app)
+    a.expect = TOKEN
     s.mount("http://", a)
     s.mount("https://", a)
     return s, a
@@ -66,7 +73,9 @@ def plain_session(app):
 def cached_session(app):
     import requests_cache
     s = requests_cache.CachedSession(backend="memory", expire_after=3600)
+    s.headers[TOKEN[0]] = TOKEN[1]
     a = WSGIAdapter(app)
+    a.expect = TOKEN
     s.mount("http://", a)
     s.mount("https://", a)
     return s, a
